@@ -3656,6 +3656,7 @@ class Qube(object):
             self._require_broadcast_into('//=', arg)
             self._require_units_allowed('//=', arg)
             self._values_ //= div_values
+            self._new_values_()
             self._merge_mask_(divisor._mask_)
             self._units_ = Units.div_units(self._units_, arg._units_)
             self.delete_derivs()
@@ -3790,6 +3791,7 @@ class Qube(object):
             self._require_broadcast_into('%=', arg)
             self._require_units_allowed('%=', arg)
             self._values_ %= div_values
+            self._new_values_()
             self._merge_mask_(divisor._mask_)
             self._units_ = Units.div_units(self._units_, arg._units_)
 
